@@ -88,6 +88,22 @@ check("C12",
       "TLA+ exact algebra (C12_Primitives, Rotations) + effect-system model (C12_Effects_MC) checked with TLC; replay and TLC trace validation (C12_Trace) of results and before/after digests",
       "DESIGN.md 6.12")
 
+check("C13",
+      "TLC checks the editing block of SurfaceSubdivision as a state machine over shared containers (InputIntact: the "
+      "object passed in is unchanged or equal to the result, never half-updated; ResultValid) and enumerates every oriented "
+      "manifold complex with <= 5 vertices / <= 3 faces of arity 3-5. Every transition of the block model (with/without "
+      "connectivity queried before; sequences of up to 3 operations) and random blocks run on real meshes (enumerated "
+      "complexes with random lattice embeddings, planar lattice grids, library shapes); after EVERY operation TLC checks the "
+      "editor's (V, F): documented counts (n-fold), oriented manifold, same Euler characteristic / border loops / components, "
+      "same exact vector area, old vertices in place, new vertices at edge midpoints / face barycentres (exact rationals); at "
+      "exit: result = what was built, edges = sides of faces, input-object clause; all C01 connectivity answers of the result "
+      "object and of the input object afterwards are judged by C01_Trace. Polylines: split_edge on every edge.",
+      "Inputs where two faces share two edges or a polygon chord is already an edge are skipped (the refinement is not "
+      "expressible with index pairs). Area through the exact vector-area functional. Volume operations (split_cell_as_fan, "
+      "split_tet_from_face_center) are judged in the volume part of this check (TetCore).",
+      "TLA+ editing-block model (C13_MC) + refinement clauses (C13_Subdivision over MeshCore/Rat) checked with TLC; replay on real meshes; TLC trace validation (C13_Trace, C01_Trace)",
+      "DESIGN.md 6.13")
+
 ALL = ["C%02d" % i for i in range(1, 21)]
 
 
